@@ -30,9 +30,13 @@ type gnode struct {
 	EncList [][]string `json:"-"`
 }
 
-var encLists = [][]any{nil, {`"`}, {[]string{"(", ")"}}, {[]string{"(", ")"}, `"`}, {[]string{"[", "]"}, []string{"<"}}}
+var encLists = [][]any{nil, {`"`}, {[]string{"(", ")"}}, {[]string{"(", ")"}, `"`}, {[]string{"[", "]"}, []string{"<"}}, nil, nil, nil,
+	// 8: a pair whose two sides are the same character, then a second scheme; 9: text that means something to
+	// fmt, as a single character and as a pair
+	{[]string{"'", "'"}, []string{"<", ">"}}, {"%", []string{"{%", "%}"}}}
 var encModel = [][][]string{nil, {{`"`}}, {{"(", ")"}}, {{"(", ")"}, {`"`}}, {{"[", "]"}, {"<"}},
-	{{"<", ">"}}, {{"<"}}, {{">"}}} // 5..7: used by c02SharedEncap only
+	{{"<", ">"}}, {{"<"}}, {{">"}}, // 5..7: used by c02SharedEncap only
+	{{"'", "'"}, {"<", ">"}}, {{"%"}, {"{%", "%}"}}}
 
 func (n gnode) cfgString() string {
 	var f []string
@@ -331,6 +335,13 @@ func c02Reconfigure(c *Ctx, n gnode, count bool) {
 		{"SetReadOnly()", func(g *gnode) {}, func(s stackage.Stack, _ gnode) { s.SetReadOnly() }},
 		{"SetNegativeIndices()", func(g *gnode) {}, func(s stackage.Stack, _ gnode) { s.SetNegativeIndices() }},
 		{"SetForwardIndices()", func(g *gnode) {}, func(s stackage.Stack, _ gnode) { s.SetForwardIndices() }},
+		// things that have no say in how the content is rendered: an error put on record, an identifier, a
+		// category, auxiliary data, log levels, a capacity-neutral comparison function
+		{"SetErr(error)", func(g *gnode) {}, func(s stackage.Stack, _ gnode) { s.SetErr(errCat) }},
+		{"SetErr(nil pointer inside an error value)", func(g *gnode) {}, func(s stackage.Stack, _ gnode) { s.SetErr((*ptrErr)(nil)) }},
+		{"SetID; SetCategory; SetAuxiliary; SetLogLevel", func(g *gnode) {}, func(s stackage.Stack, _ gnode) {
+			s.SetID("late-id").SetCategory("late-cat").SetAuxiliary(stackage.Auxiliary{"k": 1}).SetLogLevel("all").SetLessFunc(func(i, j int) bool { return i < j })
+		}},
 		// calls that are refused (no argument of a usable type) or have nothing to do with rendering
 		{"SetEncap('[' as a rune)", func(g *gnode) {}, func(s stackage.Stack, _ gnode) { s.SetEncap('[') }},
 		{"SetEncap(nil, 42)", func(g *gnode) {}, func(s stackage.Stack, _ gnode) { s.SetEncap(nil, 42) }},
@@ -505,9 +516,9 @@ func c02Cfgs(kind string, full bool) []gnode {
 		syms = []string{""}
 		delims = []string{"", ",", "é", " "}
 	}
-	encs := []int{0, 1, 2, 3}
+	encs := []int{0, 1, 2, 3, 8, 9}
 	if !full {
-		encs = []int{0, 3}
+		encs = []int{0, 3, 8}
 	}
 	for m := 0; m < 16; m++ {
 		if kind == "LIST" && m&2 != 0 {
